@@ -150,8 +150,8 @@ def run(ctx):
     tmp = tlc.mktmp('c11-')
     recs = []
     try:
-        for wi, names in enumerate(['fancy', 'plain']):
-            w = W.default_world(ctx.seed + wi, names=names)
+        for wi, names in enumerate(['fancy', 'plain', 'fancy']):
+            w = W.default_world(ctx.seed + wi, names=names, hidden_root=(wi == 2))
             d = os.path.join(tmp, f'db{wi}')
             W.build_db(d, w)
             db = ReferenceDatabase.load_from_dir(d)
@@ -222,7 +222,7 @@ def run(ctx):
         ctx.families.append(dict(name='exports', records=n, rejected=len(bad), judge='Judge_C11', by_format={f: sum(1 for r in recs if r['op'] == f) for f in ('csv', 'json', 'archive')}))
         ctx.add_samples([dict(family='exports', op='csv', text=''.join(map(chr, recs[0]['text']))[:600])], limit=1)
         ctx.rule_parts.append('[exports] real query results on two synthetic databases (taxon names, genome descriptions and labels with commas, quotes, '
-                              'LF, CRLF, tabs, non-ASCII; no prediction, unreportable predicted taxon, distance exactly 0, failed strict result '
+                              'LF, CRLF, tabs, non-ASCII; no prediction, unreportable predicted taxon with and without a reportable ancestor, distance exactly 0, failed strict result '
                               'with warnings, inputs without source file, integer ids) x strict/non-strict x list lengths, exported by the three '
                               'exporters (plain and pretty) and by `gambit query -f csv|json|archive` (files and -s): the raw CSV is parsed by '
                               'TLC and by Python\'s csv and compared column by column with the result items; JSON is parsed strictly and compared '
